@@ -84,7 +84,7 @@ def strategy_(draw, tier):
         elif c < 83:
             ops.append(["cal", draw(st.integers(0, 1)), draw(st.integers(0, 99))])
         elif c < 87:
-            ops.append(["range", draw(st.integers(0, 1)), draw(st.integers(0, 99))])
+            ops.append([draw(st.sampled_from(["range", "range", "prange"])), draw(st.integers(0, 1)), draw(st.integers(0, 99))])
         elif c < 93:
             ops.append(["reopen", draw(st.sampled_from(["ro", "rw", "rw_add"]))])
         else:
@@ -349,6 +349,24 @@ def run_case(case):
                 S("range", p.call("i", "SDsetrange", V("s%d" % si), mx, mn), si, mx, mn)
                 S("getrange", p.call("i", "SDgetrange", V("s%d" % si), Out(len(mx)), Out(len(mn))), si)
                 check_object("sds%d" % si)
+            elif k == "prange":
+                # the netCDF convention: a valid_max/valid_min pair of attributes instead of valid_range
+                _, si, seed = op
+                if not writable:
+                    continue
+                nt = "int32" if si == 0 else "float32"
+                dt = np.int32 if si == 0 else np.float32
+                mx = np.array([seed + 20]).astype(dt).tobytes()
+                mn = np.array([-seed - 3]).astype(dt).tobytes()
+                obj = "sds%d" % si
+                for name, data in (("valid_max", mx), ("valid_min", mn)):
+                    S("set", call_set(p, obj, name, sm.NT[nt][0], 1, data), obj, name, nt, 1, data)
+                    if name not in known_names[obj]:
+                        known_names[obj].append(name)
+                S("prange", None, si, mx, mn)
+                S("getrange", p.call("i", "SDgetrange", V("s%d" % si), Out(len(mx)), Out(len(mn))), si)
+                check_object(obj)
+                labels.add("range_as_attribute_pair")
             elif k == "reopen":
                 close_all()
                 mode = op[1]
@@ -396,6 +414,11 @@ def run_case(case):
                 raise Fail("harness error", detail=rr.harness_error)
             for role, ln, a in steps:
                 if role == "reopened":
+                    continue
+                if role == "prange":
+                    # SDgetrange prefers valid_range; the pair only counts while SDsetrange was never called
+                    if not pre.get(("range_set", a[0])):
+                        pre[("range", a[0])] = (a[1], a[2])
                     continue
                 if role == "share":
                     # both ids now designate one dimension: one attribute set
@@ -533,6 +556,7 @@ def run_case(case):
                     if r.ret != 0:
                         raise Fail("SDsetrange failed")
                     pre[("range", a[0])] = (a[1], a[2])
+                    pre[("range_set", a[0])] = True
                 elif role == "getrange":
                     want = pre[("range", a[0])]
                     if r.ret != 0 or (r.bufs[0], r.bufs[1]) != want:
